@@ -386,7 +386,7 @@ def pointless_shapes():
         shapes.append((f"kept for effect: {label}", lines + [g.probe(), "return 'end'"]))
         shapes.append((f"kept for effect[if]: {label}", g.compound("if", "c1", lines) + [g.probe(), "return 'end'"]))
     for i, e in enumerate(POINTLESS + USER_OBJECTS):
-        for ctx in ("top", "if", "loop", "else"):
+        for ctx in (("top", "if", "loop", "else") if (e in POINTLESS or env.tier() == "thorough") else ("top", "loop")):
             g = Gen()
             if ctx == "top":
                 lines = [e]
